@@ -20,6 +20,11 @@ func (c *Ctx) fieldOrigins(v ssa.Value) []Origin {
 		if name == "" || strings.HasPrefix(name, "var:") || originCalls[name] || userSources[name] {
 			return nil, false
 		}
+		switch name {
+		case "(net/url.Values).Encode", "net/url.QueryEscape", "net/url.PathEscape":
+			// percent-encoding: the result carries its input only in escaped form
+			return nil, false
+		}
 		if f := StaticCallee(call); f != nil && c.inRepo(f) && !transparentRepo(name) {
 			return nil, false
 		}
